@@ -36,6 +36,8 @@ TG_CONSUMERS = [
     ('folded-compare', 'int c32 = (T)-1 > (T)1; int c33 = (T)-1 <= (T)1; char c34[((T)-1 < (T)1) + 1]; enum { c35 = (T)-1 >= (T)1, c36 = (T)1 == (T)1, c37 = (T)-1 != (T)1 };'),
     ('folded-arithmetic', 'long c38 = (long)((T)-8 / (T)2); long c39 = (long)((T)-8 >> 1); long c40 = (long)((T)-8 % (T)3); long c41 = (long)((T)3 - (T)1); long c42 = (long)-(T)1;'),
     ('folded-logical', 'int c43 = !(T)0 + ((T)1 && (T)0) + ((T)0 || (T)2) + ((T)0 ? 1 : 2); _Static_assert(!(T)0, "");'),
+    ('alignas-type', '_Alignas(T) int c47 = 1; void c48(void) { _Alignas(T) char l = 0; (void)&l; }'),
+    ('pointer-dereferenced', 'long c49(T *p) { return (long)*p; } void c50(T *p, T *q) { *p = *q; }'),
     ('folded-conversion', 'long c44 = (long)(T)(unsigned char)300; double c45 = (double)(T)-1; unsigned long c46 = (unsigned long)(T)-1.5;'),
 ]
 
